@@ -623,6 +623,12 @@ pub fn s_classify(thorough: bool) -> Vec<WCfg> {
                                 }
                             }
                         }
+                        let extra: Vec<(String, Option<Vec<u8>>)> = fields
+                            .iter()
+                            .filter(|(n, f)| f.is_some() && (n.starts_with("len3-") || n.starts_with("len8-")) && hint == Hint::None && sig == "recovered")
+                            .map(|(n, f)| (format!("{}+noncanon", n), f.clone()))
+                            .collect();
+                        fields.extend(extra);
                         for (fname, field) in &fields {
                             for damage in ["none", "no-invoice-record", "invalid-utf8", "truncated", "bad-checksum"] {
                                 if damage != "none" && (fname != "absent" || hint != Hint::None || !allow || !thorough && sig != "recovered") {
@@ -752,6 +758,19 @@ fn classify_case(
     let meta_amount: Option<Vec<u8>> = field.clone();
     let extra_when_no_invoice = if damage == "no-invoice-record" { Some(common::tu64(1_000_000)) } else { meta_amount };
     c.templates[t].spec.metadata = Some(common::metadata(invoice_bytes.as_deref(), extra_when_no_invoice.as_deref()));
+    if fname.ends_with("+noncanon") {
+        // the amount record hidden behind a record of a higher type (decoders must not rely on ordering)
+        use crate::tlv::{SerializedTlvStream, TlvEntry, ToBytes};
+        let mut entries = Vec::new();
+        if let Some(i) = &invoice_bytes {
+            entries.push(TlvEntry { typ: 33001, value: i.clone() });
+        }
+        entries.push(TlvEntry { typ: 33005, value: vec![1, 2, 3] });
+        if let Some(a) = &extra_when_no_invoice {
+            entries.push(TlvEntry { typ: 33003, value: a.clone() });
+        }
+        c.templates[t].spec.metadata = Some(SerializedTlvStream::to_bytes(SerializedTlvStream::from(entries)));
+    }
     if !hash_equal {
         c.templates[t].spec.payment_hash = AsRef::<[u8]>::as_ref(&common::hash_of(&common::preimage(9))).to_vec();
         c.preimages.push((common::hash_hex(&common::preimage(9)), hex::encode(common::preimage(9))));
